@@ -88,7 +88,7 @@ type Config struct {
 	// GovVotingPeriod > 0: x/gov gets this voting period and a 1uband minimum deposit, so that authority
 	// messages can also travel through a real proposal (executed by gov's end blocker, before tss/bandtss)
 	GovVotingPeriod time.Duration
-	HomeDir     string // if empty a temp dir is created (and removed by Close)
+	HomeDir         string // if empty a temp dir is created (and removed by Close)
 }
 
 // World is one running chain instance.
